@@ -292,9 +292,10 @@ CONN_ALPHA = [('list', [0, 1]), ('list', [1]), ('list', [0, 1, 2]), ('list', [1,
               ('min', 0), ('min', 1), ('min', 2)]
 
 
-def gen_conn(rng, p_group=.35, p_excl=.12, two_choices=.3):
+def gen_conn(rng, p_group=.35, p_excl=.12, two_choices=.3, second_conn=0.):
     """Root with one (or two nested) selection choices; 1-3 source and 1-3 target connectors, each permanent (under the
-    root) or tied to an option; optionally a grouping node over 2-3 source (or target) connectors; exclusion edges."""
+    root) or tied to an option; optionally a grouping node over 2-3 source (or target) connectors; exclusion edges.
+    With probability `second_conn` a second, independent connection choice (1-2 sources, 1-2 targets of its own)."""
     nopt = rng.randint(2, 3)
     n = 1 + nopt
     derives = []
@@ -337,5 +338,10 @@ def gen_conn(rng, p_group=.35, p_excl=.12, two_choices=.3):
         groups.append({'node': gnode, 'members': members})
         tgt_entries = [gnode] + [t_ for t_ in tgt if t_ not in members]
     excl = [[a, b] for a in src_entries for b in tgt_entries if rng.random() < p_excl]
+    conn = [{'src': src_entries, 'tgt': tgt_entries, 'excl': excl}]
+    if rng.random() < second_conn:
+        src2 = [new_conn() for _ in range(rng.randint(1, 2))]
+        tgt2 = [new_conn() for _ in range(rng.randint(1, 2))]
+        conn.append({'src': src2, 'tgt': tgt2, 'excl': [[a, b] for a in src2 for b in tgt2 if rng.random() < p_excl]})
     return {'n': n, 'derives': derives, 'sel': sel, 'start': [0], 'incompat': [], 'cons': [], 'connectors': connectors,
-            'groups': groups, 'conn': [{'src': src_entries, 'tgt': tgt_entries, 'excl': excl}]}
+            'groups': groups, 'conn': conn}
